@@ -160,11 +160,17 @@ func mgDrain(it sstables.SSTableIteratorI) (out []mgRec, mutated string, err err
 	return out, "", errors.New("iterator does not terminate")
 }
 
+// the key comparator of the current case, handed to every table writer, reader (option and skip-list index loader),
+// SuperSSTableReader and merger: skiplist.BytesComparator, or a contract-conforming comparator over the same order whose
+// results have other magnitudes (sstCmpFor: scaled sign, byte / length difference). The expected answers are the same:
+// model and reference depend on the sign only.
+var mgCmp skiplist.Comparator[[]byte] = skiplist.BytesComparator{}
+
 func mgWriteTable(dir string, t mgTable, bufSize, comp int) error {
 	if err := os.MkdirAll(dir, 0o755); err != nil {
 		return err
 	}
-	w, err := sstables.NewSSTableStreamWriter(sstables.WriteBasePath(dir), sstables.WithKeyComparator(skiplist.BytesComparator{}),
+	w, err := sstables.NewSSTableStreamWriter(sstables.WriteBasePath(dir), sstables.WithKeyComparator(mgCmp),
 		sstables.WriteBufferSizeBytes(bufSize), sstables.DataCompressionType(comp))
 	if err != nil {
 		return err
@@ -192,10 +198,10 @@ const (
 var mgLdNames = []string{"slice", "skiplist", "map4", "disk"}
 
 func mgOpen(dir string, loader int) (sstables.SSTableReaderI, error) {
-	opts := []sstables.ReadOption{sstables.ReadBasePath(dir), sstables.ReadWithKeyComparator(skiplist.BytesComparator{})}
+	opts := []sstables.ReadOption{sstables.ReadBasePath(dir), sstables.ReadWithKeyComparator(mgCmp)}
 	switch loader {
 	case mgLdSkipList:
-		opts = append(opts, sstables.ReadIndexLoader(&sstables.SkipListIndexLoader{KeyComparator: skiplist.BytesComparator{}, ReadBufferSize: 4096}))
+		opts = append(opts, sstables.ReadIndexLoader(&sstables.SkipListIndexLoader{KeyComparator: mgCmp, ReadBufferSize: 4096}))
 	case mgLdMap:
 		opts = append(opts, sstables.ReadIndexLoader(&sstables.MapKeyIndexLoader[[4]byte]{ReadBufferSize: 4096, Mapper: &sstables.Byte4KeyMapper{}}))
 	case mgLdDisk:
@@ -448,7 +454,7 @@ func mgRunOp(op string, readers []sstables.SSTableReaderI, outDir string, f mgFa
 	if err := os.MkdirAll(outDir, 0o755); err != nil {
 		return nil, err
 	}
-	real, err := sstables.NewSSTableStreamWriter(sstables.WriteBasePath(outDir), sstables.WithKeyComparator(skiplist.BytesComparator{}),
+	real, err := sstables.NewSSTableStreamWriter(sstables.WriteBasePath(outDir), sstables.WithKeyComparator(mgCmp),
 		sstables.WriteBufferSizeBytes(bufSize), sstables.DataCompressionType(comp))
 	if err != nil {
 		return nil, err
@@ -517,7 +523,7 @@ func mgRunOp(op string, readers []sstables.SSTableReaderI, outDir string, f mgFa
 		fis = append(fis, fi)
 		its = append(its, sstables.NewMergeIteratorContext(i, fi))
 	}
-	merger := sstables.NewSSTableMerger(skiplist.BytesComparator{})
+	merger := sstables.NewSSTableMerger(mgCmp)
 	run.err = safely(func() error {
 		switch op {
 		case "merge":
@@ -695,6 +701,16 @@ func runMerge(res *Result, drv *Driver, seed uint64, n int, tier string, only in
 		}
 		tok := mgTablesTok(tables)
 		cs := fmt.Sprintf("nt=%d tables=%s", nt, tok)
+		// the comparator comes from a generator state of its own: tables, loaders, probes and faults are those of the plain case
+		mgCmp = skiplist.BytesComparator{}
+		if r3 := NewRng(seed^0xc0a7a2a708, uint64(idx)); r3.Chance(50) {
+			name := sstCmpNames[r3.Intn(len(sstCmpNames))]
+			mgCmp = sstCmpFor(name)
+			res.Stat("cmp:magnitudes-other-than-1:" + name)
+			cs = "cmp=" + name + " " + cs
+		} else {
+			res.Stat("cmp:bytes")
+		}
 		res.Stat(fmt.Sprintf("tables=%d", nt))
 		if small {
 			res.Stat("size:small")
@@ -789,7 +805,7 @@ func runMerge(res *Result, drv *Driver, seed uint64, n int, tier string, only in
 			}
 		}
 		ref := mgOverlay(tables)
-		super := sstables.NewSuperSSTableReader(readers, skiplist.BytesComparator{})
+		super := sstables.NewSuperSSTableReader(readers, mgCmp)
 
 		// ---------------- C08: the stacked reader
 		var probes, implOut []string
